@@ -25,6 +25,8 @@ var (
 	ErrUnexpectedToken        = errors.New("unexpected token")
 )
 
+var ErrGroupByColumnNotSelected = errors.New("group by column must appear in select list")
+
 func syntaxErr(t Token) error {
 	return fmt.Errorf("%w around `%s`", ErrSyntax, t.Text)
 }
@@ -499,12 +501,18 @@ func validateGroupByFields(s Select) error {
 		}
 	}
 
-	// check that each GROUP BY column corresponds to at most one SELECT column
+	// check that each GROUP BY column corresponds to exactly one SELECT column
 	//
 	// invalid:
 	// SELECT count(*), s1.year, s2.year
 	// FROM s1
 	// JOIN s2 ON s1.number = s2.number
+	// GROUP BY year;
+	//
+	// invalid (rows are grouped by their select list values, so a grouping
+	// column that is not selected could only be ignored):
+	// SELECT count(*)
+	// FROM s1
 	// GROUP BY year;
 	for _, groupByCol := range s.GroupByClause {
 		var hasMatch bool
@@ -518,6 +526,9 @@ func validateGroupByFields(s Select) error {
 				}
 				hasMatch = true
 			}
+		}
+		if !hasMatch {
+			return fmt.Errorf("%w: %s", ErrGroupByColumnNotSelected, groupByCol)
 		}
 	}
 
